@@ -816,6 +816,9 @@ class Analysis:
             if k == "fn" and e.val != o.val:
                 return NONE
             return EXACT
+        if k == "at" and e.role == "synth":
+            # the wrapper synthesised for `layer(` / `supports(` of an @import: at-keywords are ASCII case-insensitive, any spelling of it is equivalent
+            return EXACT if e.val.lower() == o.val.lower() else NONE
         if k in STRINGY:
             return EXACT if e.val == o.val else NONE
         return EXACT
@@ -844,6 +847,8 @@ class Analysis:
             if shallow:
                 return (k, e.val)
             return (k, e.val, self.ekey(e.children[0], True) if e.children else None)
+        if k == "at":
+            return (k, e.val.lower())
         return (k, e.val)
 
     def okey(self, o, shallow=False, deep=False):
@@ -868,6 +873,8 @@ class Analysis:
                 return (k, o.val)
             first = next((c for c in o.children if c.kind != "ws"), None)
             return (k, o.val, self.okey(first, True) if first is not None else None)
+        if k == "at":
+            return (k, o.val.lower())       # at-keywords are ASCII case-insensitive (alignment only; `match` decides)
         return (k, o.val)
 
     def align(self, exp, osig):
